@@ -219,6 +219,13 @@ def run_case(case, ctx):
         finally:
             fresh2.cleanup()
         ctx.count("post_initialize_snapshots")
+        from vlib.refdevs import Ref
+        r0 = Ref(prog)
+        r0.initialize()
+        if snap["pending"] != len(r0.pending) or snap["clock"] != r0.start:
+            ctx.viol("state-right-after-initialize:not-construct-events-plus-one-warmup", {**where, "got": snap, "want_pending": len(r0.pending),
+                                                                                          "want_clock": r0.start})
+            return
         if snap != fsnap:
             ctx.viol("state-right-after-re-initialize", {**where, "got": snap, "fresh": fsnap})
             return
@@ -240,7 +247,7 @@ def run_case(case, ctx):
                 ctx.viol(f"second-replication-differs:{part}", detail)
                 return
         nw = sum(1 for n in got["notifications"] if n[0] == "WARMUP_EVENT")
-        if nw != sum(1 for n in want["notifications"] if n[0] == "WARMUP_EVENT") or nw > 1:
+        if nw != sum(1 for n in want["notifications"] if n[0] == "WARMUP_EVENT") or nw > 1 or (r0.warm <= r0.end and nw != 1):
             ctx.viol("warmup-notifications", {**where, "count": nw})
             return
         ctx.nontrivial = (executed_before >= 1 or pending_before >= 1) and bool(prog.get("stats")) and len(got["trace"]) >= 3
